@@ -590,25 +590,363 @@ func (ex *Exec) callbackWriteKeys(ws *writeSet, info *types.Info, x *ast.CallExp
 	}
 	return true
 }
-func (ex *Exec) chanWriteKeys(ws *writeSet) { ws.all = true }
-func (ex *Exec) selectStmt(st *State, s *ast.SelectStmt, k func(*State)) {
-	panic(unsupported("select statement"))
+// ---------- channels: sequential view ----------
+//
+// A channel c of element sort T has ghost state
+//   chseq[c], chn[c], chpos[c]   the values receivers will get before seeing it closed, and the
+//                                receive cursor (input view)
+//   chsent[c], chns[c]           the values sent through it by the code under verification
+//   chclosed[c]                  closed by the code under verification / observed closed
+// Receive: pos < n yields (seq[pos], true); otherwise the receive can only complete when the
+// channel is closed and yields (zero, false) -- the continuation assumes chclosed. Send appends to
+// chsent (panics when chclosed). select chooses nondeterministically among the arms whose channel
+// is not nil (and default). Blocking, buffering and other goroutines are not modelled.
+
+type chanKeys struct {
+	seq, n, pos, sent, ns, closed mapKeyInfo
 }
-func (ex *Exec) sendStmt(st *State, s *ast.SendStmt, k func(*State)) {
-	panic(unsupported("send statement"))
+
+func (ex *Exec) chanKeysOf(elem types.Type) chanKeys {
+	es := ex.w.sortOf(elem)
+	tag := strings.Trim(es.Name, "|")
+	return chanKeys{
+		seq:    mapKeyInfo{"chseq:" + tag, ex.w.mapGSort(sRef, ex.w.seqSort(es))},
+		n:      mapKeyInfo{"chn:" + tag, ex.w.mapGSort(sRef, sInt)},
+		pos:    mapKeyInfo{"chpos:" + tag, ex.w.mapGSort(sRef, sInt)},
+		sent:   mapKeyInfo{"chsent:" + tag, ex.w.mapGSort(sRef, ex.w.seqSort(es))},
+		ns:     mapKeyInfo{"chns:" + tag, ex.w.mapGSort(sRef, sInt)},
+		closed: mapKeyInfo{"chclosed:" + tag, ex.w.mapGSort(sRef, sBool)},
+	}
 }
-func (ex *Exec) rangeChan(st *State, s *ast.RangeStmt, label string, k func(*State)) {
-	panic(unsupported("range over channel"))
+
+func chanElem(t types.Type) types.Type {
+	if c, ok := types.Unalias(t).Underlying().(*types.Chan); ok {
+		return c.Elem()
+	}
+	return nil
 }
-func (ex *Exec) recvExpr(st *State, x *ast.UnaryExpr, commaOk bool, k func(*State, []Val)) {
-	panic(unsupported("channel receive"))
+
+func (ex *Exec) chanWriteKeys(ws *writeSet) { ws.chanAll = true }
+
+func (ex *Exec) chanWriteKeysT(ws *writeSet, t types.Type) {
+	elem := chanElem(t)
+	if elem == nil {
+		ws.chanAll = true
+		return
+	}
+	ck := ex.chanKeysOf(elem)
+	for _, k := range []mapKeyInfo{ck.seq, ck.n, ck.pos, ck.sent, ck.ns, ck.closed} {
+		ws.keys[k.key] = k.sort
+	}
 }
-func (ex *Exec) makeChan(st *State, x *ast.CallExpr, ty types.Type, k func(*State, Val)) {
-	panic(unsupported("make(chan)"))
+
+func (ex *Exec) chGet(st *State, k mapKeyInfo, c string) string {
+	return sSel(ex.heapGet(st, k.key, k.sort), c)
 }
+
+func (ex *Exec) chSet(st *State, k mapKeyInfo, c, v string) {
+	a := ex.heapGet(st, k.key, k.sort)
+	ex.heapSet(st, k.key, k.sort, sStore(a, c, v))
+}
+
+// chanRecv: the continuation is only reached when the receive completes.
+func (ex *Exec) chanRecv(st *State, c Val, k func(*State, Val, Val)) {
+	elem := chanElem(c.Go)
+	ck := ex.chanKeysOf(elem)
+	es := ex.w.sortOf(elem)
+	st.assume(sNot(sEq(c.T, "nil"))) // a receive from a nil channel never completes
+	pos, n := ex.chGet(st, ck.pos, c.T), ex.chGet(st, ck.n, c.T)
+	st.assume(fmt.Sprintf("(and (<= 0 %s) (<= %s %s))", pos, pos, n))
+	ex.branch(st, fmt.Sprintf("(< %s %s)", pos, n), func(st *State) {
+		item := Val{T: sSel(ex.chGet(st, ck.seq, c.T), pos), S: es, Go: elem}
+		ex.noteIx(pos)
+		ex.chSet(st, ck.pos, c.T, fmt.Sprintf("(+ %s 1)", pos))
+		k(st, item, Val{T: "true", S: sBool, Go: types.Typ[types.Bool]})
+	}, func(st *State) {
+		st.assume(ex.chGet(st, ck.closed, c.T))
+		k(st, Val{T: ex.w.zero(es), S: es, Go: elem}, Val{T: "false", S: sBool, Go: types.Typ[types.Bool]})
+	})
+}
+
+func (ex *Exec) chanSend(st *State, c, v Val, pos token.Pos, k func(*State)) {
+	elem := chanElem(c.Go)
+	ck := ex.chanKeysOf(elem)
+	st.assume(sNot(sEq(c.T, "nil"))) // a send on a nil channel never completes
+	ex.safety(st, "safe.sendclosed", sNot(ex.chGet(st, ck.closed, c.T)), "send on closed channel", pos, func(st *State) {
+		ns := ex.chGet(st, ck.ns, c.T)
+		ex.noteIx(ns)
+		ex.chSet(st, ck.sent, c.T, sStore(ex.chGet(st, ck.sent, c.T), ns, v.T))
+		ex.chSet(st, ck.ns, c.T, fmt.Sprintf("(+ %s 1)", ns))
+		k(st)
+	})
+}
+
 func (ex *Exec) closeChan(st *State, c Val, pos token.Pos, k func(*State)) {
-	panic(unsupported("close(chan)"))
+	elem := chanElem(c.Go)
+	ck := ex.chanKeysOf(elem)
+	ex.safety(st, "safe.close", sAnd(sNot(sEq(c.T, "nil")), sNot(ex.chGet(st, ck.closed, c.T))), "close of nil or closed channel", pos, func(st *State) {
+		ex.chSet(st, ck.closed, c.T, "true")
+		k(st)
+	})
 }
+
+func (ex *Exec) makeChan(st *State, x *ast.CallExpr, ty types.Type, k func(*State, Val)) {
+	elem := chanElem(ty)
+	ck := ex.chanKeysOf(elem)
+	finish := func(st *State) {
+		r := ex.newRef(st, "chan")
+		ex.chSet(st, ck.closed, r, "false")
+		ex.chSet(st, ck.pos, r, "0")
+		ex.chSet(st, ck.ns, r, "0")
+		st.assume(fmt.Sprintf("(>= %s 0)", ex.chGet(st, ck.n, r)))
+		k(st, Val{T: r, S: sRef, Go: ty})
+	}
+	if len(x.Args) > 1 {
+		ex.expr(st, x.Args[1], func(st *State, sz Val) {
+			ex.safety(st, "safe.make", fmt.Sprintf("(>= %s 0)", sz.T), "makechan: size out of range", x.Pos(), finish)
+		})
+		return
+	}
+	finish(st)
+}
+
+func (ex *Exec) recvExpr(st *State, x *ast.UnaryExpr, commaOk bool, k func(*State, []Val)) {
+	fr := st.frame
+	if tv, has := fr.info.Types[x]; has {
+		if _, isTuple := tv.Type.(*types.Tuple); isTuple {
+			commaOk = true
+		}
+	}
+	ex.expr(st, x.X, func(st *State, c Val) {
+		ex.chanRecv(st, c, func(st *State, v, ok Val) {
+			if commaOk {
+				k(st, []Val{v, ok})
+			} else {
+				k(st, []Val{v})
+			}
+		})
+	})
+}
+
+func (ex *Exec) sendStmt(st *State, s *ast.SendStmt, k func(*State)) {
+	ex.expr(st, s.Chan, func(st *State, c Val) {
+		ex.expr(st, s.Value, func(st *State, v Val) {
+			v = ex.convTo(v, chanElem(c.Go))
+			ex.chanSend(st, c, v, s.Pos(), func(st *State) {
+				ex.afterSend(st, s)
+				k(st)
+			})
+		})
+	})
+}
+
+// selectNotReady assumes that none of the receive arms of the select could proceed.
+func (ex *Exec) selectNotReady(st *State, s *ast.SelectStmt, k func(*State)) {
+	var chans []ast.Expr
+	for _, cl := range s.Body.List {
+		cc := cl.(*ast.CommClause)
+		switch c := cc.Comm.(type) {
+		case *ast.ExprStmt:
+			if u, ok := ast.Unparen(c.X).(*ast.UnaryExpr); ok {
+				chans = append(chans, u.X)
+			}
+		case *ast.AssignStmt:
+			if u, ok := ast.Unparen(c.Rhs[0]).(*ast.UnaryExpr); ok {
+				chans = append(chans, u.X)
+			}
+		}
+	}
+	var rec func(st *State, i int)
+	rec = func(st *State, i int) {
+		if i == len(chans) {
+			k(st)
+			return
+		}
+		ex.expr(st, chans[i], func(st *State, ch Val) {
+			ck := ex.chanKeysOf(chanElem(ch.Go))
+			ready := sOr(fmt.Sprintf("(< %s %s)", ex.chGet(st, ck.pos, ch.T), ex.chGet(st, ck.n, ch.T)), ex.chGet(st, ck.closed, ch.T))
+			st.assume(sOr(sEq(ch.T, "nil"), sNot(ready)))
+			rec(st, i+1)
+		})
+	}
+	rec(st, 0)
+}
+
+// afterSend runs `after call send[k]:` anchored clauses (k-th send statement in source order).
+func (ex *Exec) afterSend(st *State, s ast.Node) {
+	if st.frame.fi != ex.top || st.frame.closure != nil || ex.top.Spec == nil || len(ex.top.Spec.Anchors) == 0 {
+		return
+	}
+	ord := 0
+	ast.Inspect(ex.top.Decl.Body, func(n ast.Node) bool {
+		switch n.(type) {
+		case *ast.SendStmt:
+			if n.Pos() < s.Pos() {
+				ord++
+			}
+		}
+		return true
+	})
+	ex.runAnchors(st, "after", "send", ord)
+}
+
+func (ex *Exec) rangeChan(st *State, s *ast.RangeStmt, label string, k func(*State)) {
+	ex.expr(st, s.X, func(st *State, c Val) {
+		fr := st.frame
+		var keyObj types.Object
+		if id, ok := s.Key.(*ast.Ident); ok && id.Name != "_" {
+			if s.Tok == token.DEFINE {
+				keyObj = fr.info.Defs[id]
+			} else {
+				keyObj = fr.info.Uses[id]
+			}
+		}
+		if keyObj != nil && s.Tok == token.DEFINE {
+			ex.declare(st, keyObj, ex.zeroVal(substType(keyObj.Type(), fr.tsub)))
+		}
+		okObj := types.NewVar(s.Pos(), nil, fmt.Sprintf("$chok%d", ex.loopOrdinal(fr, s)), types.Typ[types.Bool])
+		ex.declare(st, okObj, Val{T: "true", S: sBool, Go: types.Typ[types.Bool]})
+		lp := &loopParts{stmt: s, label: label, body: s.Body}
+		lp.written = []ast.Node{s}
+		lp.extraHavoc = []types.Object{keyObj}
+		lp.chanRecvLoop = true
+		lp.condFn = func(st *State, kt, kf func(*State)) {
+			ex.chanRecv(st, c, func(st *State, v, ok Val) {
+				if ok.T == "true" {
+					if keyObj != nil {
+						_, owner, _ := st.frame.lookupVar(keyObj)
+						owner.vars[keyObj] = v
+					}
+					kt(st)
+				} else {
+					kf(st)
+				}
+			})
+		}
+		ex.loop(st, lp, k)
+	})
+}
+
+func (ex *Exec) selectStmt(st *State, s *ast.SelectStmt, k func(*State)) {
+	// every arm is explored (nondeterministic choice); arms on nil channels are never taken
+	done := func(st *State) {
+		st.frame.loops = st.frame.loops[:len(st.frame.loops)-1]
+		k(st)
+	}
+	n := len(s.Body.List)
+	for i, cl := range s.Body.List {
+		cc := cl.(*ast.CommClause)
+		cur := st
+		if i < n-1 {
+			cur = st.fork()
+		}
+		cur.frame.loops = append(cur.frame.loops, &loopCtx{onBreak: done})
+		body := func(st *State) { ex.block(st, cc.Body, done) }
+		switch c := cc.Comm.(type) {
+		case nil:
+			// default is taken only when no receive arm is ready (a receive is ready when a value
+			// is pending or the channel is closed); readiness of send arms is not modelled
+			ex.selectNotReady(cur, s, func(st *State) { body(st) })
+		case *ast.SendStmt:
+			ex.expr(cur, c.Chan, func(st *State, ch Val) {
+				ex.expr(st, c.Value, func(st *State, v Val) {
+					v = ex.convTo(v, chanElem(ch.Go))
+					ex.chanSend(st, ch, v, c.Pos(), func(st *State) {
+						ex.afterSend(st, c)
+						body(st)
+					})
+				})
+			})
+		case *ast.ExprStmt:
+			u := ast.Unparen(c.X).(*ast.UnaryExpr)
+			ex.expr(cur, u.X, func(st *State, ch Val) {
+				ex.chanRecv(st, ch, func(st *State, v, ok Val) { body(st) })
+			})
+		case *ast.AssignStmt:
+			u := ast.Unparen(c.Rhs[0]).(*ast.UnaryExpr)
+			ex.expr(cur, u.X, func(st *State, ch Val) {
+				ex.chanRecv(st, ch, func(st *State, v, ok Val) {
+					vals := []Val{v, ok}
+					var rec func(st *State, i int)
+					rec = func(st *State, i int) {
+						if i == len(c.Lhs) {
+							body(st)
+							return
+						}
+						lhs := c.Lhs[i]
+						if id, isID := lhs.(*ast.Ident); isID {
+							if id.Name == "_" {
+								rec(st, i+1)
+								return
+							}
+							if c.Tok == token.DEFINE {
+								if obj := st.frame.info.Defs[id]; obj != nil {
+									vv := vals[i]
+									vv.Go = substType(obj.Type(), st.frame.tsub)
+									ex.declare(st, obj, vv)
+									rec(st, i+1)
+									return
+								}
+							}
+						}
+						ex.assign(st, lhs, vals[i], func(st *State) { rec(st, i+1) })
+					}
+					rec(st, 0)
+				})
+			})
+		default:
+			panic(unsupported("select communication clause"))
+		}
+	}
+	if n == 0 {
+		// select {} blocks forever
+		return
+	}
+}
+
+// typeAssert: x.(T). Non-interface T: x must be the box of a T value (boxes are injective
+// per sort); interface T: x must be non-nil (and implement T: an uninterpreted predicate for
+// interfaces with methods); pointer T: the dynamic type tag must match.
 func (ex *Exec) typeAssert(st *State, x *ast.TypeAssertExpr, commaOk bool, k func(*State, []Val)) {
-	panic(unsupported("type assertion"))
+	fr := st.frame
+	if x.Type == nil {
+		panic(unsupported("type switch"))
+	}
+	to := substType(fr.info.Types[x.Type].Type, fr.tsub)
+	ex.expr(st, x.X, func(st *State, v Val) {
+		ts := ex.w.sortOf(to)
+		var ok, val string
+		_, isTP := types.Unalias(to).(*types.TypeParam)
+		if _, isIface := types.Unalias(to).Underlying().(*types.Interface); isIface && !isTP {
+			ok = sNot(sEq(v.T, "nil"))
+			if it := types.Unalias(to).Underlying().(*types.Interface); it.NumMethods() > 0 {
+				fn := sym("implements_" + ex.w.typeString(to))
+				ex.w.declFun(fn, []*Sort{sRef}, sBool)
+				ok = sAnd(ok, sApp(fn, v.T))
+			}
+			val = v.T
+		} else if ts.Kind == KRef {
+			n, _, _ := structOf(to)
+			ok = sNot(sEq(v.T, "nil"))
+			if n != nil && n.Obj().Pkg() != nil {
+				ok = sAnd(ok, sEq(sApp(ex.dynTypeFn(), v.T), ex.typeTag(n.Obj().Pkg().Name()+"."+n.Obj().Name())))
+			}
+			val = v.T
+		} else {
+			dummy := Val{T: "x", S: ts, Go: to}
+			bx := ex.box(dummy) // declares box/unbox for the sort
+			fnBox := strings.TrimSuffix(strings.TrimPrefix(bx, "("), " x)")
+			un := strings.Replace(fnBox, "box_", "unbox_", 1)
+			ok = sAnd(sNot(sEq(v.T, "nil")), sEq(v.T, sApp(fnBox, sApp(un, v.T))))
+			val = sApp(un, v.T)
+		}
+		if commaOk {
+			okC := ex.w.define("assertok", sBool, ok)
+			k(st, []Val{{T: sIte(okC, val, ex.w.zero(ts)), S: ts, Go: to}, {T: okC, S: sBool, Go: types.Typ[types.Bool]}})
+			return
+		}
+		ex.safety(st, "safe.assert", ok, "failed type assertion", x.Pos(), func(st *State) {
+			k(st, []Val{{T: val, S: ts, Go: to}})
+		})
+	})
 }
